@@ -29,6 +29,19 @@ CHECKS = {
                 text="The C09 state space with the model SAD compared with the tracked CHILD_SAs after every transition "
                      "and after a drain from every state, plus one re-execution of every transition per XFRM_MSG_NEWSA "
                      "request with that request refused (ENOMEM, EEXIST)."),
+    'C08': dict(level='model_checking', technique=MC, engine='world-explorer',
+                text="Per exchange kind (IKE_AUTH, CREATE_CHILD_SA new/rekey/IKE rekey incl. the INVALID_KE retry, "
+                     "INFORMATIONAL delete child/IKE, DPD) and initiating role: every schedule of deliver / duplicate / "
+                     "drop / reorder / retransmission time-out and one re-sent old datagram; window oracle on every "
+                     "delivery (executed iff expected ID; previous ID -> byte-identical cached reply and no other "
+                     "effect; else inert; responses only for the outstanding request) and header/ID oracle on every "
+                     "emission."),
+    'C20': dict(level='model_checking', technique=MC + "; log monitor on every transition", engine='world-explorer',
+                text="The C09 state space (three configurations incl. refusals), every transition re-executed with each "
+                     "kernel request refused (internal-error branches), and failing handshakes (wrong PSK / identity / "
+                     "method, no proposal, TS unacceptable): every record at INFO or above and everything written to "
+                     "stderr is searched for every secret the harness knows (PSK, SKEYSEED recomputed independently, "
+                     "SK_*, CHILD keys, DH secrets) raw, hex and repr; a verbose run proves the scanner finds each kind."),
 }
 
 # filled in as checks are built; anything in ALL but not in CHECKS is listed under not_applicable
